@@ -261,6 +261,43 @@ func emit(a *replica.Inst, pt point) (n int, err error) {
 				oerr = e
 			}
 		}
+	case "list.insert.txreuse", "doc.ins.txreuse":
+		// inside a user transaction, from a slice the caller overwrites afterwards (a bulk load refilling one buffer)
+		buf := batch(v, pt.Pos)
+		if pt.Type == "list.insert.txreuse" {
+			e := a.List.Transaction("bulk", func(l orda.ListInTx) error {
+				if _, e := l.InsertMany(1, buf...); e != nil {
+					return e
+				}
+				for k := range buf {
+					buf[k] = "overwritten"
+				}
+				_, e := l.InsertMany(0, buf...)
+				return e
+			})
+			if e != nil {
+				oerr = e
+			}
+		} else {
+			arr, e := a.Doc.GetFromObject("a")
+			if e != nil || arr == nil {
+				return 0, fmt.Errorf("no array")
+			}
+			e2 := a.Doc.Transaction("bulk", func(d orda.DocumentInTx) error {
+				ar, _ := d.GetFromObject("a")
+				if _, e := ar.InsertToArray(1, buf...); e != nil {
+					return e
+				}
+				for k := range buf {
+					buf[k] = "overwritten"
+				}
+				_, e := ar.InsertToArray(0, buf...)
+				return e
+			})
+			if e2 != nil {
+				oerr = e2
+			}
+		}
 	case "tx":
 		e := a.Counter.Transaction("tag with \"quotes\" and ünïcode", func(c orda.CounterInTx) error {
 			c.IncreaseBy(1)
